@@ -10,6 +10,7 @@ import TnVerif.Model.Deriv
 import TnVerif.Model.Automata
 import TnVerif.Model.Anova
 import TnVerif.Model.Dual
+import TnVerif.Model.Ortho
 /-
   Line-protocol driver (DESIGN §2.6).  One request per line on stdin, one answer per line on
   stdout.  Tokens are separated by blanks; numbers are integers or `p/q`.
@@ -160,6 +161,13 @@ def showErr : IdxErr → String
   | .outOfRange => "outOfRange" | .tooMany => "tooMany" | .twoEllipsis => "twoEllipsis"
   | .runBroken => "runBroken" | .lenMismatch => "lenMismatch" | .badStep => "badStep"
 
+def pMat : PM (Mat Q) := do
+  let k ← next
+  if k != "M" then throw s!"M expected: {k}"
+  let r ← pNat; let c ← pNat
+  let a ← pArr (r * c)
+  return { rows := r, cols := c, f := arr2 a r c }
+
 /-! printing -/
 def showRat (q : Rat) : String :=
   if q.den == 1 then toString q.num else s!"{q.num}/{q.den}"
@@ -293,6 +301,20 @@ def run (cmd : String) : PM String := do
       let t ← pTensor
       return "ok " ++ showTensor (t.anova ws.toList)
   | "undo_anova" => do let t ← pTensor; return "ok " ++ showTensor t.undoAnova
+  | "left_orth" | "right_orth" => do
+      let mu ← pNat
+      let hasFac ← pNat
+      let fac ← if hasFac != 0 then do let qu ← pMat; let ru ← pMat; pure (some (qu, ru)) else pure none
+      let qm ← pMat; let rm ← pMat
+      let t ← pTensor
+      let t1 := cpToTTAll t
+      let t2 := match fac with
+        | some (qu, ru) => t1.atMode (TMode.factorOrth qu ru) mu
+        | none => t1
+      if cmd == "left_orth" then
+        return "ok " ++ showTensor ((t2.atPair (leftOrthPair qm rm) mu).memo)
+      else
+        return "ok " ++ showTensor ((t2.atPair (rightOrthPair qm rm) (mu - 1)).memo)
   | _ => throw s!"unknown command {cmd}"
 
 def handle (line : String) : String :=
